@@ -401,6 +401,20 @@ class Evaluator:
         p = pat.get("p")
         if p == "wild":
             return True
+        if val is not None and not is_form(val) and val[0] == "if" and p != "bind":
+            # a value that is one of two alternatives (under a condition the domain cannot decide): the pattern matches
+            # when it matches both, fails when it fails both
+            ea, eb = dict(env), dict(env)
+            ra, rb = self._match_pat(pat, val[1], ea), self._match_pat(pat, val[2], eb)
+            for k_ in set(ea) | set(eb):
+                if k_ not in env or ea.get(k_) is not env.get(k_) or eb.get(k_) is not env.get(k_):
+                    va, vb = ea.get(k_), eb.get(k_)
+                    env[k_] = va if (va is not None and vb is not None and equal(va, vb)) else None
+            if ra is True and rb is True:
+                return True
+            if ra is False and rb is False:
+                return False
+            return None
         if p == "bind":
             env[pat["name"]] = val
             return True if not pat.get("sub") else self._match_pat(pat["sub"], val, env)
